@@ -29,6 +29,14 @@ structure Cfg where
   comm : Nat := 0
   internal : Nat := 0
   noRule : Nat := 0
+  /-- `serve.<service>.respond.verbose`: error responses carry a body describing the error -/
+  verbose : Bool := false
+deriving DecidableEq, Repr, Inhabited
+
+/-- what the error translators look at in the request besides the error: `negotiable` = the `Accept` header is
+absent or content negotiation against text/html, application/json, text/plain, application/xml succeeds -/
+structure ReqView where
+  negotiable : Bool := true
 deriving DecidableEq, Repr, Inhabited
 
 /-- response classes of the two error translators, in the order of their `switch` -/
@@ -85,6 +93,14 @@ inductive Response where
   | rpcError (code : Nat)
 deriving DecidableEq, Repr, Inhabited
 
+/-- the answer (status, forwarding, check response: everything the verdict of the caller depends on) together with
+the one thing verbosity and the `Accept` header are allowed to influence: whether the error translator put a body
+describing the error into the response (its content and content type are the subject of C12) -/
+structure Reply where
+  resp : Response
+  errorBody : Bool := false
+deriving DecidableEq, Repr, Inhabited
+
 /-- `ruleExecutor.Execute`: `FindRule`, then the rule's `Execute` -/
 def execute (found : Option Rule) (c : Ctx) : Run ExecOut :=
   match found with
@@ -94,29 +110,39 @@ def execute (found : Option Rule) (c : Ctx) : Run ExecOut :=
 /-- `errorHandler.HandleError` -/
 def Cfg.httpError (cfg : Cfg) (e : Err) : Response := .http (cfg.httpStatus (classify e)) false
 
+/-- `errorHandler.HandleError` with `errorWriter` (`formatter.go`): the status of the class is written in every case;
+a body is added only if verbose responses are enabled and the format negotiation succeeds; the redirect branch
+never writes a body -/
+def Cfg.writeError (cfg : Cfg) (view : ReqView) (e : Err) : Reply :=
+  { resp := cfg.httpError e
+    errorBody := match classify e with
+      | .redirect _ => false
+      | _ => cfg.verbose && view.negotiable }
+
 /-- the error built by the HTTP recovery middleware: `ErrInternal` caused by the panic value -/
 def recovered (v : List Kind) : Err := ⟨.internal :: v, none⟩
 
 /-- `Finalize` of the decision service (`proxy = false`) and of the proxy service (`proxy = true`; the upstream
 answers with status `upstream`): the recorded pipeline error is checked before anything is written or forwarded;
 `backend` is the `rule.Backend` returned by the rule. -/
-def finalizeHTTP (proxy : Bool) (cfg : Cfg) (upstream : Nat) (backend : Bool) (c : Ctx) : Response :=
+def finalizeHTTP (proxy : Bool) (cfg : Cfg) (view : ReqView) (upstream : Nat) (backend : Bool) (c : Ctx) :
+    Reply :=
   match c.pipelineErr with
-  | some e => cfg.httpError e
+  | some e => cfg.writeError view e
   | none =>
     if proxy then
-      if backend then .http upstream true
-      else cfg.httpError (.ofKind .configuration)
-    else .http cfg.acceptedCode false
+      if backend then { resp := .http upstream true }
+      else cfg.writeError view (.ofKind .configuration)
+    else { resp := .http cfg.acceptedCode false }
 
 /-- `service.handler.ServeHTTP` inside `recovery.New(eh)` -/
-def serveHTTP (proxy : Bool) (cfg : Cfg) (upstream : Nat) (found : Option Rule) : Response × Ctx :=
+def serveHTTP (proxy : Bool) (cfg : Cfg) (view : ReqView) (upstream : Nat) (found : Option Rule) : Reply × Ctx :=
   match execute found {} with
-  | .panic v c => (cfg.httpError (recovered v), c)
+  | .panic v c => (cfg.writeError view (recovered v), c)
   | .done out c =>
     match out.err with
-    | some e => (cfg.httpError e, c)
-    | none => (finalizeHTTP proxy cfg upstream out.backend c, c)
+    | some e => (cfg.writeError view e, c)
+    | none => (finalizeHTTP proxy cfg view upstream out.backend c, c)
 
 /-- the gRPC error interceptor -/
 def Cfg.deny (cfg : Cfg) (e : Err) : Response :=
@@ -124,31 +150,43 @@ def Cfg.deny (cfg : Cfg) (e : Err) : Response :=
   | .redirect code => .checkDenied 9 code
   | cl => .checkDenied (grpcCode cl) (cfg.httpStatus cl)
 
+/-- the gRPC error interceptor with `errorResponse` (`error_response.go`): with verbose responses a body is always
+present (a failed negotiation falls back to text/html); the redirect branch has none -/
+def Cfg.denyReply (cfg : Cfg) (e : Err) : Reply :=
+  { resp := cfg.deny e
+    errorBody := match classify e with
+      | .redirect _ => false
+      | _ => cfg.verbose }
+
 /-- `grpcv3.RequestContext.Finalize` followed by the error interceptor: the recorded pipeline error is checked
 before the OK response is built -/
-def finalizeEnvoy (cfg : Cfg) (c : Ctx) : Response :=
+def finalizeEnvoy (cfg : Cfg) (c : Ctx) : Reply :=
   match c.pipelineErr with
-  | some e => cfg.deny e
-  | none => .checkOk
+  | some e => cfg.denyReply e
+  | none => { resp := .checkOk }
 
 /-- `grpcv3.Handler.Check` inside the error interceptor inside the recovery interceptor -/
-def serveEnvoy (cfg : Cfg) (found : Option Rule) : Response × Ctx :=
+def serveEnvoy (cfg : Cfg) (found : Option Rule) : Reply × Ctx :=
   match execute found {} with
-  | .panic _ c => (.rpcError 13, c)
+  | .panic _ c => ({ resp := .rpcError 13 }, c)
   | .done out c =>
     match out.err with
-    | some e => (cfg.deny e, c)
+    | some e => (cfg.denyReply e, c)
     | none => (finalizeEnvoy cfg c, c)
 
-def serve (ep : EntryPoint) (cfg : Cfg) (upstream : Nat) (found : Option Rule) : Response × Ctx :=
+def serve (ep : EntryPoint) (cfg : Cfg) (view : ReqView) (upstream : Nat) (found : Option Rule) : Reply × Ctx :=
   match ep with
-  | .decision => serveHTTP false cfg upstream found
-  | .proxy => serveHTTP true cfg upstream found
+  | .decision => serveHTTP false cfg view upstream found
+  | .proxy => serveHTTP true cfg view upstream found
   | .envoy => serveEnvoy cfg found
 
-/-- the answer alone -/
-def answer (ep : EntryPoint) (cfg : Cfg) (upstream : Nat) (found : Option Rule) : Response :=
-  (serve ep cfg upstream found).1
+/-- the answer alone: what the caller's verdict depends on -/
+def answer (ep : EntryPoint) (cfg : Cfg) (view : ReqView) (upstream : Nat) (found : Option Rule) : Response :=
+  (serve ep cfg view upstream found).1.resp
+
+/-- did the error translator add a body describing the error -/
+def errorBody (ep : EntryPoint) (cfg : Cfg) (view : ReqView) (upstream : Nat) (found : Option Rule) : Bool :=
+  (serve ep cfg view upstream found).1.errorBody
 
 def isSuccessStatus (s : Nat) : Bool := 200 ≤ s && s < 300
 
